@@ -20,6 +20,23 @@ theorem C09_handles (specs : List BgSpec) (hd : Handler) (snap : List Nat) (s : 
   obtain ⟨ls, hex⟩ := h
   exact (reach_inv specs hd snap ls s hex).handles x
 
+/-- (Corollary) every live handle is a spawned task that has not finished. -/
+theorem C09_handles_sound (specs : List BgSpec) (hd : Handler) (snap : List Nat) (s : FSt)
+    (h : FReach specs hd snap s) (x : Nat) :
+    x ∈ s.live → (x ∈ s.spawned ∧ s.statusOf x ≠ some .ended) :=
+  (C09_handles specs hd snap s h x).1
+
+/-- Regression: a task that has finished cannot end again, even after a crash — the second
+`taskEnded 1 (some 3)` (label 5) is rejected. (An earlier guard of the `failsWhenCancelled` arm accepted
+it and put the task back to `raisedPending 3` while it was no longer live.) -/
+theorem ended_task_cannot_end_again :
+    (match faccept (FSt.init [⟨1, .failsWhenCancelled 3⟩] (.returns false) [])
+        [.spawn 1, .cancelReq 1, .cancelSeen 1, .taskEnded 1 (some 3), .handlerCalled 1 3,
+          .taskEnded 1 (some 3)] 0 with
+     | .ok _ => none
+     | .error e => some e) = some (5, FLab.taskEnded 1 (some 3)) := by
+  decide
+
 /-- … and that is what all_task_handles() returns. -/
 theorem C09_observed (s s' : FSt) (hs : List Nat) (hstep : fstep? s (.observed hs) = some s') :
     hs = sortNat s.live ∧ s' = { s with hist := s.hist ++ [.observed hs] } := by
@@ -88,6 +105,18 @@ theorem C09_no_handler (s s' : FSt) (x e : Nat) (hh : s.handler = .absent)
     (hstep : fstep? s (.taskEnded x (some e)) = some s') : s'.crashed = s.crashed ++ [e] := by
   exact fstep_taskEnded_absent s s' x e hh hstep
 
+/-- The exception of a task that had been cancelled through its handle (raised by its clean-up)
+is an exception like any other: it goes to the handler, or propagates at once if there is none —
+it is never lost. -/
+theorem C09_cancelled_exception (s s' : FSt) (x e : Nat) (hst : s.statusOf x = some .cancelled)
+    (hstep : fstep? s (.taskEnded x (some e)) = some s') :
+    (s.handler = .absent ∧ s'.crashed = s.crashed ++ [e]) ∨
+      (∃ t, s.handler = .returns t ∧ s'.statusOf x = some (.raisedPending e)) := by
+  -- `hst` is not needed: the conclusion holds for a task ending with an exception in any status
+  -- (Fc.fstep_taskEnded_some); with `hst` the step can only be the `failsWhenCancelled` one.
+  have _ := hst
+  exact fstep_taskEnded_some s s' x e hstep
+
 /-- What propagates out of the owning root context is exactly what was not swallowed. -/
 theorem C09_outcome (s s' : FSt) (leaves : List Nat) (hstep : fstep? s (.outcome leaves) = some s') :
     sortNat leaves = sortNat s.crashed ∧ s.left = true := by
@@ -99,6 +128,17 @@ example :
     let tr : List FLab := [.spawn 1, .taskBegan 1 true [5], .spawn 2, .taskBegan 2 true [5], .observed [1, 2],
       .taskEnded 1 (some 2), .handlerCalled 1 2, .cancelSeen 2, .taskEnded 2 none, .blockLeft, .outcome [2]]
     (match faccept (FSt.init specs (.returns false) [5]) tr 0 with
+     | .ok s => s.reported
+     | .error _ => false) = true := by
+  decide
+
+/-- Non-vacuity: a task that is cancelled through its handle and whose clean-up then raises; the
+handler is consulted, returns a falsy value, and the exception reaches the caller. -/
+example :
+    let specs : List BgSpec := [⟨1, .failsWhenCancelled 3⟩]
+    let tr : List FLab := [.spawn 1, .taskBegan 1 true [], .cancelReq 1, .cancelSeen 1, .taskEnded 1 (some 3),
+      .handlerCalled 1 3, .exitBegin, .blockLeft, .outcome [3]]
+    (match faccept (FSt.init specs (.returns false) []) tr 0 with
      | .ok s => s.reported
      | .error _ => false) = true := by
   decide
